@@ -82,6 +82,11 @@ def run(ck):
     ck.require(n_sites >= 4, "fewer destructive call sites than confirmed by hand (%d < 4)" % n_sites)
     from rules.c06 import unlimited_deletes_nothing
     unlimited_deletes_nothing(ck, S, "C10-O3")
+    # a removal that fails is not made up for by removing another file: retention executed by cases, once more per removal call with that call failing
+    from rules.rfs import retention_by_cases
+    v_, why_ = retention_by_cases(ck, S, "C10-O3", failures=True)
+    if v_ is not None:
+        ck.ob("C10-O3", sitestr(S.m["removeOldFiles"]), v_, why_ if v_ else why_ + ": a single failed unlink costs a newer log file that the retention policy keeps", key="removeOldFiles|failed-removal-by-cases")
     fi = S.m["findNextIndexForDate"]
     from rules.c06 import regex_patterns
     tp = [t for t in regex_patterns(F, fi) if t[0].startswith("^")]
